@@ -121,6 +121,24 @@ func staticSetup() *staticEnv {
 		r.StaticFiles("/assets", e.root, "css")
 	})
 	delete(rux.GetGlobalVars(), "file")
+	// a caching router with a tiny cache and a SECOND mount (another URL prefix, the parent directory as its root): requests
+	// for the other mount come in between; what /assets serves is still confined to its own root
+	e.routers["css-cache2"] = newRouter(rux.CachingWithNum(2))
+	e.routers["css-cache2"].StaticFiles("/assets", e.root, "css")
+	e.routers["css-cache2"].StaticFiles("/priv", tmp, "css|txt")
+	// three global middleware added one Use call each; the first one serves a nested request for an allowed file while the
+	// measured request is in flight; a catch-all route below the same prefix answers what the static route does not match
+	mk("css-nested", func(r *rux.Router) {
+		r.Use(func(c *rux.Context) {
+			if c.Req.Header.Get("X-Nested") == "" {
+				r.ServeHTTP(httptest.NewRecorder(), &http.Request{Method: "GET", URL: &url.URL{Path: "/assets/a.css"}, Header: http.Header{"X-Nested": {"1"}}, Proto: "HTTP/1.1"})
+			}
+		})
+		r.Use(nopHandler)
+		r.Use(nopHandler)
+		r.StaticFiles("/assets", e.root, "css")
+		r.GET("/assets/{file:.+}", func(c *rux.Context) { c.Text(404, "no such asset") })
+	})
 	mk("fs", func(r *rux.Router) { r.StaticFS("/assets", http.Dir(e.root)) })
 	mk("css", func(r *rux.Router) { r.StaticFiles("/assets", e.root, "css") })
 	mk("cssjs", func(r *rux.Router) { r.StaticFiles("/assets", e.root, "css|js") })
@@ -133,7 +151,7 @@ type naiveFS struct{ root string }
 func (n naiveFS) Open(name string) (http.File, error) { return os.Open(filepath.Join(n.root, name)) }
 
 // staticTwin: handlers that must answer exactly like another one (same files, configured in another way)
-var staticTwin = map[string]string{"dir-relative": "dir", "dir-dotdot": "dir", "css-relative": "css", "css-two-roots": "css", "dir-late": "dir", "css-late": "css", "css-globalfile": "css"}
+var staticTwin = map[string]string{"dir-relative": "dir", "dir-dotdot": "dir", "css-relative": "css", "css-two-roots": "css", "dir-late": "dir", "css-late": "css", "css-globalfile": "css", "css-cache2": "css"}
 
 func staticReplay(s *Summary, raw json.RawMessage) {
 	var c staticCase
@@ -177,6 +195,11 @@ func staticReplay(s *Summary, raw json.RawMessage) {
 			var pan any
 			func() {
 				defer func() { pan = recover() }()
+				if name == "css-cache2" {
+					for _, other := range []string{"/priv/secret.css", "/priv/secret.txt", "/priv/index.html", "/priv/secret.css"} {
+						r.ServeHTTP(httptest.NewRecorder(), &http.Request{Method: "GET", URL: &url.URL{Path: other}, Header: http.Header{}, Proto: "HTTP/1.1"})
+					}
+				}
 				r.ServeHTTP(w, &http.Request{Method: "GET", URL: &url.URL{Path: p}, Header: http.Header{}, Proto: "HTTP/1.1"})
 			}()
 			s.Compared++
@@ -209,7 +232,7 @@ func staticReplay(s *Summary, raw json.RawMessage) {
 			}
 			if vi != 0 {
 				// precision is only judged on the request as the model describes it
-				if (name == "css" || name == "cssjs" || name == "css-relative" || name == "css-late" || name == "css-globalfile") && served != "" {
+				if (name == "css" || name == "cssjs" || name == "css-relative" || name == "css-late" || name == "css-globalfile" || name == "css-cache2" || name == "css-nested") && served != "" {
 					ok := strings.HasSuffix(served, ".css") || (name == "cssjs" && strings.HasSuffix(served, ".js"))
 					if !ok {
 						s.mismatch(desc("extension", "served "+served+" which does not have an allowed extension"), c)
@@ -221,7 +244,7 @@ func staticReplay(s *Summary, raw json.RawMessage) {
 			if name == "css" || name == "cssjs" {
 				model = c.Files[name]
 			}
-			if name == "css-relative" || name == "css-late" || name == "css-globalfile" {
+			if name == "css-relative" || name == "css-late" || name == "css-globalfile" || name == "css-cache2" || name == "css-nested" {
 				model = c.Files["css"]
 			}
 			if name == "css-two-roots" {
@@ -237,7 +260,7 @@ func staticReplay(s *Summary, raw json.RawMessage) {
 			default:
 				// a directory may be listed or redirected, index.html may be served for it; otherwise no file content
 				idx := strings.TrimPrefix(strings.Join(model.Path, "/")+"/index.html", "/")
-				if served != "" && !(model.Kind == "dir" && served == idx && name != "css" && name != "cssjs" && name != "css-relative" && name != "css-late" && name != "css-globalfile") {
+				if served != "" && !(model.Kind == "dir" && served == idx && name != "css" && name != "cssjs" && name != "css-relative" && name != "css-late" && name != "css-globalfile" && name != "css-cache2" && name != "css-nested") {
 					s.mismatch(desc("precision", fmt.Sprintf("answered %d with the content of %s, the model serves %s", w.Code, served, model.Kind)), c)
 				}
 			}
